@@ -46,7 +46,7 @@ Definition run_new_code (dv : Divider) (ps : list N) (h : N) : list Z :=
   | inr (EDivider DividerBad) => [5]
   | inr (EDivider SumOverflow) => [6]
   end.
-Definition sweep_limits : list Z := [0; 1; 2; 5; 10; 20; 33; 50; 75; 100].
+Definition sweep_limits : list Z := [0; 1; 2; 5; 10; 20; 33; 50; 75; 100; 101; 150; 400; 100000].
 
 (* family 3: [fn; divider; n; ps..; q (or max); limit_num; limit_den] -> [value]
    fn: 0 IsNonFatalConfig, 1 PickUpMinNonFatalQuantity, 2 PickUpMaxNonFatalQuantity,
